@@ -306,7 +306,7 @@ func checkC03Inner(c C03Case) *ev.Failure {
 		if c.BigRet && atomic.LoadInt32(&bigPhase) == 1 {
 			// a result of its own for every call, large enough to take the reader's large-frame path
 			n := atomic.AddInt32(&bigSeq, 1)
-			val := fmt.Sprintf("result-of-call-%d-", n) + strings.Repeat(string(rune('a'+n%26)), 70000+int(n)*1111)
+			val := fmt.Sprintf("result-of-call-%d-", n) + strings.Repeat(string(rune('a'+n%26)), 70000+int(n%7)*1111)
 			bigMu.Lock()
 			bigProduced[val] = true
 			bigMu.Unlock()
